@@ -87,6 +87,9 @@ Definition heval_xgen (p : list rat) (o : hop) : result rat :=
   | HIntU b i k _ => gxint false true b (pget p i) (Z.of_N k)
   end.
 
+(** From<UBig / IBig / u8..u128 / i8..i128> for RBig and Relaxed (convert.rs: Repr { numerator: v.into(), denominator: UBig::ONE }) *)
+Definition from_int_asis (v : Z) : rat := (v, 1).
+
 (** TryFrom<f32/f64> for RBig / Relaxed (rational/src/convert.rs impl_conversion_from_float), from the decoded
     (mantissa, exponent) on: [Repr { man << exp, 1 }] or [Repr { man, 2^-exp }], then [reduce2].
     (hand transcription; the zero shortcut returns Repr::zero() before decode) *)
